@@ -157,6 +157,33 @@ func runConcTask(sh *concShared, tk cTask) string {
 		g := tk.G.Model()
 		p, o, gens := graph.CanonicalIsomorphFull(denseOf(g), nil)
 		fmt.Fprint(&sb, p, orbitSets(o), gens)
+		// what a call returns is the caller's: overwrite it (another goroutine labelling an equal graph must not notice)
+		for i := range p {
+			p[i] = -1
+		}
+		for i := range o {
+			o[i] = -9
+		}
+		for _, gn := range gens {
+			for i := range gn {
+				gn[i] = -2
+			}
+		}
+		for _, e := range []*oracle.G{oracle.New(g.N), oracle.New(5)} { // edgeless graphs of equal size in every goroutine
+			p2, o2, g2 := graph.CanonicalIsomorphFull(sparseOf(e), nil)
+			fmt.Fprint(&sb, p2, orbitSets(o2), len(g2))
+			for i := range p2 {
+				p2[i] = -3
+			}
+			for i := range o2 {
+				o2[i] = -4
+			}
+			for _, gn := range g2 {
+				for i := range gn {
+					gn[i] = -5
+				}
+			}
+		}
 	case "canon-shared":
 		_, gr := pick()
 		p, o, gens := graph.CanonicalIsomorphFull(gr, nil)
@@ -220,11 +247,26 @@ func runConcTask(sh *concShared, tk cTask) string {
 		}
 	case "dawg-build":
 		var b dawg.Builder
-		for i := 0; i < tk.G.N; i++ {
-			b.Add([]byte(fmt.Sprintf("w%02d%s", i, strings.Repeat("x", i%3))))
+		nw := tk.G.N * 20 // up to 160 words: builds long enough to overlap with other goroutines' builds
+		var ws []word
+		for i := 0; i < nw; i++ {
+			ws = append(ws, word(fmt.Sprintf("w%03d%s", i, strings.Repeat("x", i%3))))
+			b.Add([]byte(ws[i]))
 		}
 		d, _ := b.Finish()
 		fmt.Fprint(&sb, d.NumberOfWords(), dumpUpToIdentity(d.VerifNodes()))
+		// the automaton must survive serialisation like one that was built alone
+		enc, err := d.GobEncode()
+		back := new(dawg.Dawg)
+		if err == nil {
+			err = back.GobDecode(enc)
+		}
+		if err != nil {
+			panic(fmt.Sprintf("gob round trip of an own Dawg failed: %v", err))
+		}
+		if cerr := checkAutomaton(back, ws, []word{"w", "w000x", "zz"}); cerr != nil {
+			panic(fmt.Sprintf("own Dawg after a gob round trip: %v", cerr))
+		}
 	case "dawg-lookup":
 		for ch := 0; ch < 256; ch += 5 {
 			i, ok := sh.dg.Lookup([]byte{byte(ch)})
